@@ -117,6 +117,66 @@ Definition lyds_insert (s : lst) (x : A) (x_tree : bool) : option lst :=
    node is appended and no lyds function is called *)
 Definition lyds_append (s : lst) (x : A) : lst := mkLst (sibs s ++ [x]) (rbt s).
 
+(* lyd_dup() (src/tree_data.c) of the instances xs of one (leaf-)list, in source order, into a parent, i.e.
+   lyd_dup_siblings(first instance, parent, options without LYD_DUP_NO_LYDS).
+       first_llist = NULL;
+       for each orig:
+           insert_order = LYD_INSERT_NODE_DEFAULT;
+           if (first_llist) insert_order = LYD_INSERT_NODE_LAST;            -- the rest is appended
+           else first_llist = orig;
+           lyd_dup_r(orig, ..., insert_order) -> lyd_insert_node(parent, ..., dup, insert_order);
+           if (first_llist && <not alone>) first_llist = NULL;              -- after EVERY duplicate: the order must be
+                                                                               found for the next one
+   after   : the parent has children behind the instances of this (leaf-)list (then dup->next is never NULL)
+   fixed   : true  - <not alone> = dup->next || (dup->prev->next && dup->prev->schema == dup->schema)   (the fixed code)
+             false - <not alone> = dup->next                                 (before the fix: a duplicate that lands behind
+                     EXISTING instances keeps the append path, the appended duplicates never enter the leader's tree) *)
+Definition dup_alone (fixed after : bool) (s : lst) (x : A) : bool :=
+  negb after &&
+  (if fixed then match sibs s with [_] => true | _ => false end
+   else match rev (sibs s) with y :: _ => ideq y x | [] => false end).
+
+Fixpoint lyds_dup_rest (fixed after fast : bool) (s : lst) (xs : list A) : option lst :=
+  match xs with
+  | [] => Some s
+  | x :: xs' =>
+    if fast then lyds_dup_rest fixed after (dup_alone fixed after (lyds_append s x) x) (lyds_append s x) xs'
+    else
+      match lyds_insert s x false with
+      | None => None
+      | Some s' => lyds_dup_rest fixed after (dup_alone fixed after s' x) s' xs'
+      end
+  end.
+
+(* the duplicate of a leader carries a copy of the `lyds_tree` metadata whose tree pointer is NULL
+   (lyplg_type_dupl_lyds); it survives when the duplicate becomes the first instance in the target
+   (lyds_insert() frees it otherwise).  src_meta: the first source instance owns such metadata *)
+Definition dup_first_meta (src_meta : bool) (s s' : lst) : lst :=
+  match sibs s with
+  | [] => if src_meta then mkLst (sibs s') (Some Leaf) else s'
+  | _ :: _ => s'
+  end.
+
+Definition lyds_dup (fixed after src_meta : bool) (s : lst) (xs : list A) : option lst :=
+  match xs with
+  | [] => Some s
+  | x :: xs' =>
+    match lyds_insert s x false with
+    | None => None
+    | Some s' =>
+      let s1 := dup_first_meta src_meta s s' in
+      lyds_dup_rest fixed after (dup_alone fixed after s1 x) s1 xs'
+    end
+  end.
+
+(* with LYD_DUP_NO_LYDS every duplicate is linked behind the last instance (LYD_INSERT_NODE_LAST_BY_SCHEMA for the
+   first one, LYD_INSERT_NODE_LAST for the others) and no lyds function is called *)
+Definition lyds_dup_nolyds (src_meta : bool) (s : lst) (xs : list A) : lst :=
+  match xs with
+  | [] => s
+  | x :: xs' => fold_left lyds_append xs' (dup_first_meta src_meta s (lyds_append s x))
+  end.
+
 (* lyd_unlink(node) for the instance at sibling position i: lyds_unlink() then lyd_unlink_ignore_lyds().
        rbt = lyds_get_rb_tree( *leader, &root_meta);
        if (!root_meta || LYD_NODE_IS_ALONE( *leader)) return;        -- an alone leader keeps its metadata and tree
@@ -214,6 +274,11 @@ Arguments create_tree {A}.
 Arguments lyds_insert {A}.
 Arguments lyds_append {A}.
 Arguments lyds_unlink {A}.
+Arguments dup_alone {A}.
+Arguments dup_first_meta {A}.
+Arguments lyds_dup_rest {A}.
+Arguments lyds_dup {A}.
+Arguments lyds_dup_nolyds {A}.
 Arguments Ins {A} x.
 Arguments Rem {A} i.
 Arguments rb_step {A}.
